@@ -15,6 +15,7 @@ CFG_GROUP(rgb8_1,  uint8_t, 3, gil::histogram<int>, 1)
 CFG_GROUP(rgba16_3, uint16_t, 4, gil::histogram<int>, 3)
 CFG_GROUP(d2_8,    uint8_t, 2, gil::histogram<int, int>)
 CFG_GROUP(d2_8s,   int8_t, 2, gil::histogram<int, int>)
+CFG_GROUP(d2_8_10, uint8_t, 2, gil::histogram<int, int>, 1, 0)      // full-length, permuted channel selection
 CFG_GROUP(rgb8_20, uint8_t, 3, gil::histogram<int, int>, 2, 0)
 CFG_GROUP(rgb16_01, uint16_t, 3, gil::histogram<int, long>, 0, 1)
 VH_MAIN
